@@ -523,3 +523,98 @@ def judge_ctor(case, impl):
         return [(f"extras:element-over-rejected:ctor:{impl['site']}",
                  f"the bare field accepts the leaf value but it is rejected inside f={impl['value']}: {impl.get('exc')}: {impl.get('msg')}")]
     return []
+
+
+# ------------------------------------------------------------------ C02 / C06: DecimalNumber and floats
+
+DEC_VALUES = [0.1, 0.2, 0.3, 0.7, 1.1, 19.99, 2.5, 0.25, 3, -0.1, 0.0, 1e-7]
+
+
+def decimal_cases():
+    out = []
+    for vi in range(len(DEC_VALUES)):
+        for bounds in ("none", "min", "max", "both"):
+            for wrap in ("bare", "array", "map"):
+                out.append({"suite": "extras-decimal", "value": vi, "bounds": bounds, "wrap": wrap})
+    return out
+
+
+def run_decimal(case):
+    import math
+    v = DEC_VALUES[case["value"]]
+    kw = {}
+    if case["bounds"] in ("min", "both"):
+        kw["minimum"] = v
+    if case["bounds"] in ("max", "both"):
+        kw["maximum"] = v
+    mk = lambda: DecimalNumber(**kw)
+    field = {"bare": mk, "array": lambda: Array[mk()], "map": lambda: Map[String(), mk()]}[case["wrap"]]
+    wrapv = {"bare": lambda x: x, "array": lambda x: [x, x], "map": lambda x: {"k": x}}[case["wrap"]]
+    leaf = {"bare": lambda s: s, "array": lambda s: s[0], "map": lambda s: s["k"]}[case["wrap"]]
+    try:
+        cls = type("D", (Structure,), {"f": field(), "_required": ["f"]})
+    except Exception as e:
+        return {"skip": f"{type(e).__name__}: {e}"[:160]}
+    res = {"site": f"{case['wrap']}>decimal:{case['bounds']}", "value": repr(v), "probes": []}
+    probes = [("at", v, True)]
+    if isinstance(v, float):
+        if case["bounds"] in ("max", "both"):
+            probes.append(("above", math.nextafter(v, math.inf), False))
+        if case["bounds"] in ("min", "both"):
+            probes.append(("below", math.nextafter(v, -math.inf), False))
+    for label, x, expect_ok in probes:
+        pr = {"probe": label, "x": repr(x), "expect_ok": expect_ok}
+        try:
+            inst = cls(f=wrapv(x))
+            stored = leaf(inst.f)
+            pr["ctor"] = "ok"
+            pr["ctor_equal_input"] = bool(stored == x) and bool(stored == decimal.Decimal(x))
+            pr["ctor_stored"] = repr(stored)[:80]
+        except Exception as e:
+            pr["ctor"] = type(e).__name__
+            stored = None
+        try:
+            inst2 = Deserializer(cls).deserialize({"f": wrapv(x)}, keep_undefined=False)
+            stored2 = leaf(inst2.f)
+            pr["deser"] = "ok"
+            pr["deser_stored"] = repr(stored2)[:80]
+            if stored is not None:
+                pr["deser_equals_ctor"] = bool(stored2 == stored)
+        except Exception as e:
+            pr["deser"] = type(e).__name__
+        res["probes"].append(pr)
+    return res
+
+
+def judge_decimal_ctor(case, impl):
+    """C02: the bound value itself is accepted, its outer float neighbours are refused, and what is read back equals
+    the number that was given"""
+    fails = []
+    for pr in impl.get("probes", []):
+        site = impl["site"]
+        if pr["expect_ok"] and pr["ctor"] != "ok":
+            fails.append((f"extras:decimal:rejects-documented:{site}", f"DecimalNumber bounds {case['bounds']}={impl['value']}: the value {pr['x']} ({pr['probe']}) was rejected: {pr['ctor']}"))
+        if not pr["expect_ok"] and pr["ctor"] == "ok":
+            fails.append((f"extras:decimal:accepts-undocumented:{site}", f"DecimalNumber bounds {case['bounds']}={impl['value']}: the value {pr['x']} ({pr['probe']}) was accepted"))
+        if pr["ctor"] == "ok" and pr["expect_ok"] and not pr.get("ctor_equal_input"):
+            fails.append((f"extras:decimal:normal-form:{site}", f"DecimalNumber given {pr['x']} reads back {pr.get('ctor_stored')}, which is not equal to the number given"))
+        if pr["ctor"] not in ("ok", "TypeError", "ValueError"):
+            fails.append((f"extras:wrong-exception:{pr['ctor']}:ctor:{site}", f"DecimalNumber given {pr['x']} raised {pr['ctor']}"))
+    return fails
+
+
+def judge_decimal_deser(case, impl):
+    """C06: for a JSON number the Deserializer accepts exactly when the constructor does, with an equal value"""
+    fails = []
+    for pr in impl.get("probes", []):
+        site = impl["site"]
+        c, d = pr["ctor"], pr.get("deser")
+        if c == "ok" and d != "ok":
+            fails.append((f"extras:decimal:rejects-image:{site}", f"the constructor accepts {pr['x']} but the Deserializer raises {d}"))
+        elif c != "ok" and d == "ok":
+            fails.append((f"extras:decimal:accepts-non-image:{site}", f"the constructor rejects {pr['x']} ({c}) but the Deserializer accepts it"))
+        elif c == "ok" and pr.get("deser_equals_ctor") is False:
+            fails.append((f"extras:decimal:differs-from-constructor:{site}", f"{pr['x']}: Deserializer gives {pr.get('deser_stored')}, the constructor {pr.get('ctor_stored')}"))
+        if d not in ("ok", "TypeError", "ValueError", None):
+            fails.append((f"extras:wrong-exception:{d}:{site}", f"Deserializer given {pr['x']} raised {d}"))
+    return fails
